@@ -381,6 +381,17 @@ def run(rep, ctx):
                     ok = False
                     detail = "%s calls %s inside %d loop(s)" % (f.full[:120], callee, len(loops))
                     break
+                loopconds = set()
+                for l in loops:
+                    for c_ in l.get("c", [])[:-1]:
+                        if c_ is not None:
+                            loopconds |= {x["i"] for x in walk(c_)}
+                conds = [(cid, pol) for cid, pol in f.cfg.facts_at(sites[0]) if cid not in loopconds]
+                if conds:
+                    ok = False
+                    detail = "%s calls %s only under `%s%s`: items on the other branch get no final status record" % (
+                        f.qn, callee.split("::")[-1], "" if conds[0][1] else "!", render(f.nodes[conds[0][0]])[:80])
+                    break
         else:
             detail = "%s is called from %s (expected only %s)" % (callee, sorted(cs), caller)
         w1.check(ok, "once|%s" % callee.replace("mp::", ""), "", detail)
